@@ -263,6 +263,8 @@ class _FloatMeta(type):
 class symfloat(float, metaclass=_FloatMeta):
     """Stand-in for the builtin ``float`` in an analysed module."""
 
+    dtype = np.dtype(float)      # see symint.dtype
+
     def __new__(cls, x=0.0):
         if isinstance(x, Sym):
             if x.is_int:
@@ -289,6 +291,10 @@ class _IntMeta(type):
 
 class symint(int, metaclass=_IntMeta):
     """Stand-in for the builtin ``int`` in an analysed module."""
+
+    # numpy resolves ``dtype=<this class>`` through this attribute: plain arrays that reach an analysed module
+    # (``arr.astype(int)``, ``np.zeros(n, int)``) keep numpy's integer semantics instead of becoming object arrays
+    dtype = np.dtype(int)
 
     def __new__(cls, x=0, *args):
         if isinstance(x, Sym):
